@@ -5,6 +5,7 @@ CONSTANTS
   MaxInp = 6
   MaxWrite = 3
   EmitOps = TRUE
+  EmitEvery = 1
 INVARIANT Inv
 PROPERTY Refines
 ACTION_CONSTRAINT Emit
